@@ -9,7 +9,11 @@ calls, the record / Fourier cache / smoothing frequencies of the object) at call
 snapshot, never on what the object holds after the call, and every argument is compared bit-for-bit with it afterwards.
 Relations between executions (checked by the driver after the related calls returned): deprecated alias == direct form,
 matrix form == direct form, custom-matrix form == object form, a constant spectrum is reproduced, scaling by alpha scales
-the result by |alpha| (bit-for-bit for powers of two), a held result is unchanged by a later call on another input.
+the result by |alpha| (bit-for-bit for powers of two), a held result is unchanged by a later call on another input, the same
+arguments give the same result again after other inputs (A, B, A), the smoothing frequencies an object holds are the ones the
+caller gave. Objects made by copy.copy / copy.deepcopy / pickle are judged like any other object: every read of their smoothed
+spectrum against their OWN Fourier cache or, when they hold none, the dt x DFT of their own record (the driver only hands the
+band of the last generation on to the copy: adopt()). Calls that raise are followed by a state check (exception hooks).
 """
 import copy
 import math
@@ -49,7 +53,19 @@ RULE = ('cases are of three kinds. func: (frequency grid, amplitude vector, targ
         'explicit Fourier regeneration with even and odd n, bandwidth / custom-matrix calls (1-3 columns), twins sharing a caller '
         'array, deep copies of warm objects (then mutated), objects derived by interp_to_approx_dt and the real part of '
         'fas2signal); bandwidth functions with 1, 2, 30..65 smoothing frequencies, the band open at the first / last / both '
-        'smoothing frequencies, ratio 0, 1e-300, 1e-12, 1-1e-12, nextafter(1, 0). large: 12 (quick) / 96 '
+        'smoothing frequencies, ratio 0, 1e-300, 1e-12, 1-1e-12, nextafter(1, 0). '
+        'round 3: protocol = history with two live objects: Signal / AccSignal in one of 13 cache states (cold, Fourier only, smoothed by '
+        'read / gen(band) / gen(targets) / bandwidth call / after a custom-matrix call, smoothed then targets set / values reset / '
+        'cache cleared / Fourier regenerated, explicit Fourier (p2_plus, n) then smoothed) put through copy.copy, copy.deepcopy, pickle '
+        '(protocols 0, 2, highest) or a chain of two of them, then 4..9 reads, regenerations, bandwidth / custom-matrix calls, target '
+        'changes and value mutators on the copy and on the original in both orders (swap), both read at the end; a shallow copy is only '
+        'followed by reset_values among the value mutators; assignments through values / dt / npts / label and the two target setters '
+        '(1, 2, 3 entries as list / tuple / ndarray) followed by a read; refused operations (list targets or a str band to '
+        'gen_smooth_fa_spectrum, wrong-shaped custom matrix, ratio 1, wrong-length add_series) and non-finite values in the middle of a '
+        'history; A, B (same shape), B1 (shorter), B2 (same shape, grid x 1.37), A on the function form and A, B, A with fresh objects; '
+        'bands within 1e-3 (relative) of 5 and 100 incl. nextafter; ratios 1e-6..1e-3, 0.999, 0.9995 (sig ratios 1.0005, 1.001, 1000, 2000) '
+        'with a Gaussian-pulse record whose smoothed spectrum spans the decades that make them decide; silent (all-zero) and strictly '
+        'one-signed records and spectra. large: 12 (quick) / 96 '
         '(thorough) problems with n_fa * n_targets next to 2**18 .. 2**23 (thorough 2**24), just below / just above / 1.4 x each '
         'power of two, as many targets on a 1-8k-bin grid, as the None default, or as a long spectrum with ~50 targets, plus '
         'a 170000-sample Signal with the default 50 smoothing frequencies; there the scalar oracle judges first, last and '
@@ -75,6 +91,12 @@ ASSUMPTIONS = ['frequencies and targets are finite, positive real ndarrays (a si
                'window\'s own rounding error (next to a zero of sin the relative error of a weight is unbounded); it is evaluated '
                'in the double-precision regime and for problems the oracle judges completely',
                'complex-typed records returned by fas2signal are not judged as such (their real part is analysed)',
+               'an object that serves a cached smoothed spectrum while it holds no Fourier spectrum is judged against the dt x DFT '
+               '(default padding) of its own record with the band of the last generation in its lineage',
+               'after a call raised, the object must be as it was at entry (caches filled lazily apart); a shallow copy shares the value '
+               'buffer with its original by definition and is followed only by value mutators that rebind (reset_values)',
+               'PENDING (reported, undecided): gen_smooth_fa_spectrum(smooth_fa_freqs=<list>) raises TypeError after it has stored the '
+               'list; that one mechanism is counted under "pending-finding: ..." and the driver restores the previous targets',
                'oracle vf/oracles/konno.py is correct (math.log10/sin scalar loop, fsum)']
 RTOL = 1e-9
 RTOL_F32 = 2e-4
@@ -2431,7 +2453,9 @@ MIN_EVALS['quick'] = {
     'smooth==weighted-mean(local scale)': 4500, 'ownership.result-owns-its-data': 7000,
     'bandwidth.open-end: ordered, brackets peak, ==first/last above limit': 700,
     'smooth==weighted-mean & finite (b*|log10(f/fc)| > 308)': 450, 'smooth==weighted-mean & finite (extreme amplitude scale)': 180,
-    'purity.arguments-unchanged': 8000, 'purity.signal-state-unchanged': 3500, 'state.held-result-unchanged': 1900}
+    'purity.arguments-unchanged': 8000, 'purity.signal-state-unchanged': 3500, 'state.held-result-unchanged': 1900,
+    # round 3: results depend on the arguments only; the caller's targets are the stored ones; refused operations
+    'relation.repeat(A,B,A)==first': 950, 'targets.stored==given': 280, 'refused-call.object-as-it-was': 60}
 MIN_EVALS['thorough'] = {k: 18 * v for k, v in MIN_EVALS['quick'].items()}
 LARGE_MIN = {'smooth==weighted-mean(large: target subset)': 15, 'matrix==window/sum(large: target subset)': 5,
              'relation.constant-reproduced(large)': 8, 'relation.scaling-pow2-exact(large)': 8,
